@@ -254,6 +254,9 @@ def run(args, repo, jobs, seed, workdir, outdir):
         n = max(1, total * p["share"] // share_sum)
         nchunks = max(1, min(jobs * 3, n // 20 or 1))
         per = (n + nchunks - 1) // nchunks
+        # one worker process never runs more than this many runs (bounds what a process can accumulate: the race
+        # detector's shadow memory, goroutines a violated run left behind)
+        per = min(per, 2500 if p["race"] else 60000)
         start = 0
         while start < n:
             c = min(per, n - start)
